@@ -44,6 +44,32 @@ def gen(rng, tier):
             u = kv[p] + (kv[kn] - kv[p]) * F(rng.randint(1, 99), 100); G.count('split_param', 'in-span')
         line = "split %s %s %d %s" % (KO.KIND[d['kind']], S.args(d), i, fr(u))
         out.append(Case('split', line, dict(shape=d, dir=i, u=u)))
+    # unclamped knot vectors (the domain ends are NOT the first / last knot): interior splits, both domain ends
+    # (must be rejected), and the parameter value 0 inside an un-normalised domain
+    for _ in range(14 if tier == 'quick' else 150):
+        d = S.rand_curve(rng, maxp=4, clamped=False, allow_range=False) if rng.random() < .6 else S.rand_surface(rng, maxp=3, max_interior=2, clamped=False, allow_range=False)
+        nd = len(S.dirs(d))
+        i = rng.randrange(nd)
+        p, kv, kn = S.dirs(d)[i]
+        r = rng.random()
+        if r < .35:
+            u = rng.choice([kv[p], kv[kn]]); G.count('split_param', 'unclamped-domain-end')
+        else:
+            u = kv[p] + (kv[kn] - kv[p]) * F(rng.randint(1, 99), 100); G.count('split_param', 'unclamped-in-span')
+        line = "split %s %s %d %s" % (KO.KIND[d['kind']], S.args(d), i, fr(u))
+        out.append(Case('split', line, dict(shape=d, dir=i, u=u), tags=('unclamped',)))
+    for _ in range(8 if tier == 'quick' else 80):
+        d = _shape(rng)
+        nd = len(S.dirs(d))
+        i = rng.randrange(nd)
+        key = ['kv'] if d['kind'] == 'curve' else ['kvu', 'kvv']
+        p, kv, kn = S.dirs(d)[i]
+        lo, hi = kv[p], kv[kn]
+        t = rng.choice([F(1, 2), F(1, 3), F(3, 5)])
+        d[key[i]] = [2 * ((x - lo) / (hi - lo) - t) for x in kv]
+        G.count('split_param', 'zero-inside-domain')
+        line = "split %s %s %d %s" % (KO.KIND[d['kind']], S.args(d), i, fr(F(0)))
+        out.append(Case('split', line, dict(shape=d, dir=i, u=F(0)), tags=('zero-param',)))
     # tolerance probes: split parameters very close to (but not on) an interior knot - the multiplicity
     # lookup (find_multiplicity, 10e-8) must not treat them as the knot
     for _ in range(10 if tier == 'quick' else 120):
@@ -73,6 +99,21 @@ def gen(rng, tier):
         for u in (F(1), F(0) if lo < 0 else F(1), hi):
             line = "split %s %s %d %s" % (KO.KIND[d['kind']], S.args(d), i, fr(u))
             out.append(Case('split', line, dict(shape=d, dir=i, u=u), tags=('mixup-probe',)))
+    # a control point adjusted IN PLACE through the list the ctrlpts getter returns, then a split / decomposition
+    # at knots of full multiplicity (degree 1 in u: no knot is inserted, the pieces are cut out of the stored net)
+    found = 0
+    for _ in range(400):
+        if found >= (6 if tier == 'quick' else 60):
+            break
+        d = S.rand_surface(rng, rational=False, maxp=3, max_interior=2, allow_range=False)
+        if d['pu'] != 1:
+            continue
+        interior = sorted(set(d['kvu'][2:d['su']]))
+        if not interior:
+            continue
+        found += 1
+        k = rng.randrange(len(d['P'])); cidx = rng.randrange(3)
+        out.append(Case('inplace-split', None, dict(shape=d, k=k, c=cidx, val=F(rng.randint(7, 15)), u=rng.choice(interior))))
     for _ in range(30 if tier == 'quick' else 400):
         d = _shape(rng)
         dirs = 'u' if d['kind'] == 'curve' else rng.choice(['u', 'v', 'uv'])
@@ -157,6 +198,29 @@ def oracle(c):
             why = _piece_check(before, pd, rng_)
             if why:
                 return "piece %d: %s" % (k, why)
+        return None
+    if c.kind == 'inplace-split':
+        from geomdl import operations
+        k, cidx, val, u = c.data['k'], c.data['c'], c.data['val'], c.data['u']
+        o.ctrlpts[k][cidx] = q(val)               # in-place adjustment of one coordinate
+        d2 = dict(d); d2['P'] = [list(pt) for pt in d['P']]; d2['P'][k][cidx] = val
+        if S.from_obj(o) != d2:
+            return None                           # the getter handed out a copy: nothing to compare
+        ps = operations.split_surface_u(o, q(u))
+        for kk, pc in enumerate(ps):
+            rng_ = list(dom)
+            rng_[0] = (dom[0][0], u) if kk == 0 else (u, dom[0][1])
+            why = _piece_check(d2, S.from_obj(pc), rng_)
+            if why:
+                return "after an in-place edit of a control point, split piece %d: %s" % (kk, why)
+        pcs = list(operations.decompose_surface(o, decompose_dir='u'))
+        ks = sorted(set(d['kvu'][1:d['su'] + 1]))
+        if len(pcs) != len(ks) - 1:
+            return "after an in-place edit: decompose returned %d pieces for %d intervals" % (len(pcs), len(ks) - 1)
+        for pc, (a_, b_) in zip(pcs, zip(ks, ks[1:])):
+            why = _piece_check(d2, S.from_obj(pc), [(a_, b_), dom[1]])
+            if why:
+                return "after an in-place edit of a control point, decomposed piece over (%s,%s): %s" % (fr(a_), fr(b_), why)
         return None
     # decomposition
     dirs = c.data['dirs']
